@@ -20,7 +20,7 @@ Definition GAb (n : bytes) (c s b : N) (d : list N) (x : bytes) : attr := mkAttr
 Definition GA (n : string) (c s b : N) (d : list N) (x : string) : attr :=
   mkAttr (unhex n) (mkValue c s b d (unhex x)).
 
-Definition res_code (r : res) : N := match r with ROk => 0 | RErr => 1 | RPanic => 2 end.
+Definition res_code (r : res) : N := match r with ROk => 0 | RErr => 1 end.   (* Go side: 2 = panic, never predicted *)
 
 Definition value_eqb (a b : value) : bool :=
   (vclass a =? vclass b) && (vsize a =? vsize b) && (vbits a =? vbits b)
